@@ -30,6 +30,15 @@ def families(prop: str, tier: str, seed: int) -> Dict[str, List[gen.Spec]]:
                        + gen.family_F(seed + 4, 8 if q else 150)
                        + gen.family_S(seed + 5, 10 if q else 150))
         fam["walk"] = gen.family_T_random(seed + 3, 8 if q else 150, min_states=8, max_states=14, density=0.35)
+    elif prop == "C10":
+        fam["edge"] = (gen.family_D(seed, 8 if q else 200)
+                       + gen.family_R(seed + 1, 30 if q else 400)
+                       + gen.family_T_random(seed + 2, 8 if q else 100, min_states=3, max_states=5))
+        fam["walk"] = gen.family_D(seed + 3, 6 if q else 60) + gen.family_R(seed + 4, 6 if q else 60)
+    elif prop == "C11":
+        fam["edge"] = (gen.family_H(seed, 6 if q else 250)
+                       + gen.family_T_random(seed + 2, 10 if q else 150, min_states=4, max_states=6))
+        fam["walk"] = gen.family_H(seed + 3, 8 if q else 80, density=0.6)
     elif prop == "C02":
         fam["edge"] = (gen.family_S(seed, 40 if q else 500)
                        + gen.family_T_random(seed + 1, 10 if q else 100, min_states=3, max_states=5))
@@ -46,6 +55,8 @@ def rule_for(prop: str) -> str:
         "C01": "machine families T (random trees with one transition per ordered (source,target) pair, reenter twins, targetless), H (history under compound/parallel parents), D (completion nests); TLC explores every reachable quiescent state x every event; every explored edge is replayed on the real engine; non-trivial = the step changes the configuration or runs at least one action",
         "C02": "machine family S (selection layouts: chains and parallel regions with several guarded candidates per (state,event), shared-ancestor handlers, forbidden transitions) + T; every guard valuation over {T,F,R} per step, can() before sends; non-trivial as for C01",
         "C03": "as C01; every executed transition's log segment is checked for order/accounting/frame",
+        "C10": "machine families D (compound/parallel nests with final children, onDone absent/targetless/guarded/targeted at every level, top-level finals with outputs), R (raise/assign reactions, events queued behind completion) and T; every reachable state x event x guard valuation; completions are counted as rising edges of in-final along the configuration reconstructed from entry/exit witnesses",
+        "C11": "machine families H (shallow/deep/both history children under compound and parallel parents, nested regions, default targets, wrapper depth) and T; TLC reaches never-visited / visited / re-visited-with-other-leaves histories by exploring all event sequences; every history-targeting edge from outside the parent is compared with the configuration remembered at the parent's last exit",
     }[prop]
 
 
